@@ -1,7 +1,8 @@
-(* C16 driver: evaluates the extracted Model/Enforce.v on the case lines printed by harness/src/bin/c16.rs
+(* C16 driver: evaluates the extracted Model/Enforce.v and Model/EnforceLagrange.v on the case lines printed by harness/src/bin/c16.rs
    and prints results in the same canonical format. *)
 open Zio
 open Enforce
+open EnforceLagrange
 
 let z = z_of_hex
 let h = hex_of_z
@@ -44,6 +45,28 @@ let vres = function
   | VOk -> "ok" | VNotPow2 -> "not_pow2" | VTooShort -> "too_short" | VNotExact -> "not_exact" | VOverflow -> "panic"
 
 let split_on c s = if s = "-" || s = "" then [] else Stdlib.String.split_on_char c s
+
+
+(* ---- Lagrange kernel constraints (Model/EnforceLagrange.v) *)
+(* rows 4j..4j+3 -> hex digit j, row 4j most significant, padded with zeros (same as the harness) *)
+let hexbits (a : bool array) : string =
+  let n = Stdlib.Array.length a in
+  let nd = (n + 3) / 4 in
+  Stdlib.String.init nd (fun j ->
+      let d = ref 0 in
+      for i = 0 to 3 do
+        let idx = (4 * j) + i in
+        d := (2 * !d) + if idx < n && a.(idx) then 1 else 0
+      done;
+      "0123456789abcdef".[!d])
+
+let oh = function Some x -> h x | None -> "panic"
+let hl l = if l = [] then "-" else cat "," (lmap h l)
+
+(* the constraints an AIR builds for a trace of length n: lag_num_coefficients n coefficients handed to new() *)
+let lag_for o n =
+  let m = lag_num_coefficients n in
+  (m, lag_new o (Stdlib.List.init (int_of_z m) (fun _ -> o.FieldOps.fone)))
 
 let eval = function
   | [ "ctor"; k; col; first; stride; nvals ] ->
@@ -123,6 +146,63 @@ let eval = function
   | [ "evd"; n; base; cycles ] -> h (eval_degree (z n) (z base) (lmap z (split_on ',' cycles)))
   | [ "ex"; n; k; ce; degs ] ->
     if exemptions_ok (z n) (z k) (z ce) (lmap z (split_on ',' degs)) then "ok " ^ h (z k) else "panic"
+  | [ "lagn"; fld; n ] ->
+    let o = ops_of fld in
+    (match lag_for o (z n) with
+     | _, None -> "panic"
+     | m, Some t ->
+       Stdlib.Printf.sprintf "ncoef=%s nc=%s ndiv=%s" (h m) (h (lag_num_constraints t))
+         (h (z_of_int (Stdlib.List.length t.l_div))))
+  | [ "lagd"; fld; n; k; g; mode; x1; x2 ] ->
+    let o = ops_of fld and g = z g and n = z n and k = z k in
+    (match lag_for o n with
+     | _, None -> "panic"
+     | _, Some t ->
+       let idx = BinInt.Z.sub k (z "1") in
+       (match zidx t.l_div idx with
+        | None -> "panic"
+        | Some d ->
+          let ni = int_of_z n in
+          let pat =
+            if mode = "f" then begin
+              (* the model's divisor evaluated at every point of the trace domain *)
+              let a = Stdlib.Array.make ni false in
+              let x = ref o.FieldOps.fone in
+              for i = 0 to ni - 1 do
+                a.(i) <- is0 (evaluate_at o d !x);
+                x := o.FieldOps.fmul !x g
+              done;
+              a
+            end else begin
+              (* the row set proved equal to the divisor's zero set (C16_lagrange_enforcement_exact) *)
+              let a = Stdlib.Array.make ni false in
+              Stdlib.List.iter (fun r -> a.(int_of_z r) <- true) (lag_rows n k);
+              a
+            end in
+          Stdlib.Printf.sprintf "pat=%s ev=%s,%s" (hexbits pat) (oh (lag_ith_divisor o t idx (z x1))) (oh (lag_ith_divisor o t idx (z x2)))))
+  | [ "lagc"; fld; n; g; zz; x; cb; coefs; rs; poly ] ->
+    let o = ops_of fld and g = z g and n = z n in
+    let coefs = lmap z (split_on ',' coefs) and rs = lmap z (split_on ',' rs) and poly = lmap z (split_on ',' poly) in
+    let v = lag_num_coefficients n in
+    (match lag_new o coefs with
+     | None -> "panic"
+     | Some t ->
+       let frame = lag_frame_from_poly o g v poly (z zz) in
+       let nums = lmap (fun i -> oh (lag_ith_numerator o t frame rs (z_of_int i))) (Stdlib.List.init (int_of_z v) (fun i -> i)) in
+       Stdlib.Printf.sprintf "frame=%s nums=%s comb=%s bnd=%s/%s/%s" (hl frame) (cat "," nums)
+         (oh (lag_evaluate_and_combine o t frame rs (z x)))
+         (oh (lag_boundary_numerator o rs frame (z cb))) (h (lag_boundary_denominator o (z x)))
+         (oh (lag_boundary_evaluate_at o rs frame (z cb) (z x))))
+  | [ "lagm"; fld; x; coefs; rs; frame ] ->
+    let o = ops_of fld in
+    let coefs = lmap z (split_on ',' coefs) and rs = lmap z (split_on ',' rs) and frame = lmap z (split_on ',' frame) in
+    (match lag_new o coefs with
+     | None -> "panic"
+     | Some t ->
+       let cl = Stdlib.List.length coefs in
+       let nums = lmap (fun i -> oh (lag_ith_numerator o t frame rs (z_of_int i))) (Stdlib.List.init (cl + 1) (fun i -> i)) in
+       Stdlib.Printf.sprintf "nc=%s nums=%s comb=%s" (h (lag_num_constraints t)) (cat "," nums)
+         (oh (lag_evaluate_and_combine o t frame rs (z x))))
   | op :: _ -> "driver-error:unknown-op:" ^ op
   | [] -> "driver-error:empty"
 
